@@ -8,6 +8,7 @@ from .ast import (
     BreakStmt,
     ButtonDecl,
     ButtonPoll,
+    ContinueStmt,
     ExprStmt,
     ForRangeLoop,
     FunctionDef,
@@ -1585,6 +1586,10 @@ def _emit_block(
 
         if isinstance(node, BreakStmt):
             lines.append(f"{indent}break;")
+            continue
+
+        if isinstance(node, ContinueStmt):
+            lines.append(f"{indent}continue;")
             continue
 
         def _ensure_buzzer_tracking(name: str) -> Tuple[str, str, str, str]:
